@@ -909,8 +909,8 @@ func (g *c03Gen) partial(sizeToo bool) *val {
 
 func (g *c03Gen) literal() string {
 	r := g.r
-	n := pick(r, []int{0, 0, 1, 1, 2, 10, 100, 4095, 4096, 4097})
-	if r.chance(1, 40) {
+	n := pick(r, []int{0, 0, 1, 1, 2, 3, 10, 10, 64, 100, 100, 1000, 4095, 4096, 4097})
+	if r.chance(1, 150) {
 		n = 65537
 	}
 	b := make([]byte, n)
